@@ -1923,6 +1923,50 @@ func runStream(drv string, n int, out string) {
 			rp.Nontrivial++
 		}
 	}
+	// 4f. artifacts recorded under unclean names on one side: created / deleted / modified are decided on the cleaned
+	//     paths (verdict only; oracle = the queue algorithm on the paths the names denote; no claim for MODIFY on an
+	//     unchanged or doubly-unclean entry, see oracleVerifyNormalised)
+	for vi := range uncleanVariants {
+		for _, form := range uncleanForms {
+			for dir := 0; dir < 4; dir++ {
+				for _, same := range []bool{true, false} {
+					in, base := uncleanCase(form, vi, dir, same)
+					orc := oracleVerifyNormalised(in)
+					k := base
+					if orc == "" {
+						k += "/no-oracle(modify-on-unclean-entry)"
+					} else {
+						k += "/" + orc
+					}
+					impl := runVerify(in)
+					model := noModel
+					if d != nil {
+						model, _ = d.verify(in)
+					}
+					rp.Distribution[k]++
+					ii := in
+					rp.add(k, anyCase{Kind: "V", V: &ii}, impl, model, orc)
+					rp.Nontrivial++
+				}
+			}
+		}
+	}
+	// 4g. REQUIRE fails exactly when its file is not queued, also when the queue is empty or fully consumed
+	for i, form := range requireEmptyForms {
+		for k := 0; k < 3; k++ {
+			in, base := requireEmptyCase(form, i+k)
+			kk, orc, _ := classify(in, base)
+			impl := observe(runVerify, in)
+			model := noModel
+			if d != nil {
+				model = observe(func(x vInput) string { v, _ := d.verify(x); return v }, in)
+			}
+			rp.Distribution[kk]++
+			ii := in
+			rp.add(kk, anyCase{Kind: "Vq", V: &ii}, impl, model, orc)
+			rp.Nontrivial++
+		}
+	}
 	// 4b. VerifyArtifacts on every keyword/token variant: artifacts the intended rule would reject or consume
 	for _, v := range variants {
 		in, base := kwVariantCase(v, r.Fork())
@@ -1960,6 +2004,11 @@ func main() {
 			var in vInput
 			var base string
 			switch {
+			case i >= 48 && i < 60:
+				in, base = requireEmptyCase(requireEmptyForms[i-48], i)
+			case i >= 60 && i < 76:
+				j := i - 60
+				in, base = uncleanCase(uncleanForms[j%len(uncleanForms)], j%len(uncleanVariants), j%3, j%2 == 0)
 			case i >= 35 && i < 48:
 				j := i - 35
 				in, base = backslashCase(backslashForms[j%len(backslashForms)], backslashNames[(j*3)%len(backslashNames)])
@@ -1987,6 +2036,11 @@ func main() {
 				in, base = genVCase(r.Fork())
 			}
 			orc, st, _ := oracleVerify(in)
+			if orc == "" && strings.HasPrefix(base, "unclean-material-names") {
+				if orc = oracleVerifyNormalised(in); orc != "" {
+					st.end = orc
+				}
+			}
 			klass := base
 			if orc != "" {
 				klass = base + "/" + st.end
